@@ -102,9 +102,35 @@ def stock_case(sc):
         return dict(rec, skipped="eig refused")
     eig = ss.EIG
     dae = ss.dae
+    altered = []
+    if sc.get("alter"):
+        # a parameter study on the initialised system: change every time-constant parameter of the dynamic models
+        # (through the documented Model.alter) and analyse again - the modes must be those of the current parameters
+        for mdl in ss.exist.tds.values():
+            seen_p = set()
+            for st in mdl.states.values():
+                tc = st.t_const
+                if tc is None or not hasattr(tc, "vin") or tc.name in seen_p or tc.name not in mdl.params:
+                    continue
+                seen_p.add(tc.name)
+                for k in range(min(mdl.n, 2)):
+                    old = float(tc.vin[k])
+                    if old > 0:
+                        mdl.alter(tc.name, mdl.idx.v[k], old * 1.5)
+                        altered.append("%s.%s" % (mdl.class_name, tc.name))
+        ok = ss.EIG.run()
+        if not ok:
+            return dict(rec, skipped="eig refused after alter")
     from andes.shared import matrix
     fx, fy, gx, gy = (np.array(matrix(dae.__dict__[k])) for k in ("fx", "fy", "gx", "gy"))
-    T = np.array(dae.Tf)
+    # the time constants as the models' parameters have them now (not the routine's own copy)
+    T = np.ones(dae.n)
+    for mdl in ss.exist.tds.values():
+        for st in mdl.states.values():
+            if st.t_const is not None and mdl.n:
+                T[np.asarray(st.a, dtype=int)] = np.asarray(st.t_const.v, dtype=float)
+    rec["tf_current"] = bool(np.allclose(T, np.array(dae.Tf), rtol=1e-12, atol=0))
+    rec["altered"] = sorted(set(altered))
     z = np.where(T == 0)[0]
     d = np.where(T != 0)[0]
     # one-shot block elimination with dense algebra
